@@ -920,3 +920,150 @@ func c13RunN4(e *c13Env) {
 		c.Undecided("C13-N4", e.nm.replaceIter+".Next", fd.Pos(), "no delete through the replacer found: the REPLACE producer has changed shape")
 	}
 }
+
+// ---- N5: UPDATE … JOIN counts a table row as matched once, when it is first seen ---------------------
+
+func c13RunN5(e *c13Env) {
+	c := e.c
+	it := c13Named(c.P, e.nm.execRel, e.nm.joinIter)
+	cacheT := c13Named(c.P, e.nm.sqlRel, e.nm.cacheIface)
+	if it == nil || cacheT == nil {
+		c.Undecided("C13-N5", e.nm.joinIter, 0, "join iterator / cache interface not found")
+		return
+	}
+	var fd *ast.FuncDecl
+	for _, m := range dmlMethodDecls(e.pk, it) {
+		if m.Name.Name == "Next" && m.Body != nil {
+			fd = m
+		}
+	}
+	fname := e.nm.joinIter + ".Next"
+	if fd == nil {
+		c.Undecided("C13-N5", fname, it.Obj().Pos(), "method not found")
+		return
+	}
+	info := e.info
+	// the handler type: the iterator's field of type *handler (coupled by N2)
+	var hT *types.Named
+	if sT, ok := it.Underlying().(*types.Struct); ok {
+		for i := 0; i < sT.NumFields(); i++ {
+			if p, isPtr := sT.Field(i).Type().(*types.Pointer); isPtr {
+				if nt := dmlNamedOf(p.Elem()); nt != nil && dmlImplements(nt, e.iface) {
+					hT = nt
+				}
+			}
+		}
+	}
+	if hT == nil {
+		c.Undecided("C13-N5", fname, fd.Pos(), "the join iterator holds no row-count handler")
+		return
+	}
+	has := func(n ast.Node, pred func(call *ast.CallExpr, sel *ast.SelectorExpr) bool) bool {
+		for _, call := range dmlCallsIn(n, false) {
+			if sel, ok := ast.Unparen(call.Fun).(*ast.SelectorExpr); ok && pred(call, sel) {
+				return true
+			}
+		}
+		return false
+	}
+	onCache := func(name string) func(ast.Node) bool {
+		return func(n ast.Node) bool {
+			return has(n, func(call *ast.CallExpr, sel *ast.SelectorExpr) bool {
+				return sel.Sel.Name == name && dmlNamedOf(info.Types[sel.X].Type) == cacheT
+			})
+		}
+	}
+	isGet, isPut := onCache(e.nm.cacheGet), onCache(e.nm.cachePut)
+	isM := func(n ast.Node) bool {
+		return has(n, func(call *ast.CallExpr, sel *ast.SelectorExpr) bool {
+			return sel.Sel.Name == e.nm.matchedFn && dmlNamedOf(info.Types[sel.X].Type) == hT
+		})
+	}
+	g := c.P.CFG(info, fd.Body)
+	var gets, ms []CFGPoint
+	for _, b := range g.Blocks {
+		for i, n := range b.Nodes {
+			if isGet(n) {
+				gets = append(gets, CFGPoint{b, i})
+			}
+			if isM(n) {
+				ms = append(ms, CFGPoint{b, i})
+			}
+		}
+	}
+	if len(gets) == 0 || len(ms) == 0 {
+		c.Undecided("C13-N5", fname, fd.Pos(), fmt.Sprintf("expected the seen-rows cache lookup and the %s call (found %d / %d)", e.nm.matchedFn, len(gets), len(ms)))
+		return
+	}
+	// Between two cache lookups (or a lookup and a return) the put and the matched count go together,
+	// in either order: state = (put seen, matched calls, on the "iterator has no handler" edge).
+	type n5St struct {
+		put, noHandler bool
+		m              uint8
+	}
+	hField := func(n ast.Node) bool {
+		be, ok := n.(*ast.BinaryExpr)
+		if !ok || (be.Op != token.NEQ && be.Op != token.EQL) {
+			return false
+		}
+		for _, pair := range [][2]ast.Expr{{be.X, be.Y}, {be.Y, be.X}} {
+			if isNilIdent(info, pair[1]) {
+				if p, isPtr := info.Types[pair[0]].Type.(*types.Pointer); isPtr && dmlNamedOf(p.Elem()) == hT {
+					return true
+				}
+			}
+		}
+		return false
+	}
+	check := func(key, okMsg, badMsg string, wrong func(s n5St) bool) {
+		var bad []ast.Node
+		for _, gp := range gets {
+			start := gp.B.Nodes[gp.I]
+			node := func(n ast.Node, s n5St) (n5St, pathAct) {
+				if isGet(n) && n != start || isGet(n) && s != (n5St{}) {
+					if wrong(s) {
+						return s, pathBad
+					}
+					return s, pathStop
+				}
+				if isPut(n) {
+					s.put = true
+				}
+				if isM(n) && s.m < 2 {
+					s.m++
+				}
+				return s, pathGo
+			}
+			edge := func(bb *cfg.Block, succ int, s n5St) (n5St, bool) {
+				if len(bb.Nodes) > 0 && len(bb.Succs) == 2 && hField(bb.Nodes[len(bb.Nodes)-1]) {
+					be := bb.Nodes[len(bb.Nodes)-1].(*ast.BinaryExpr)
+					nilEdge := 1
+					if be.Op == token.EQL {
+						nilEdge = 0
+					}
+					if succ == nilEdge {
+						s.noHandler = true
+					}
+				}
+				return s, true
+			}
+			exit := func(s n5St, ret *ast.ReturnStmt) bool { return wrong(s) }
+			if p := pathExplore(g, gp, n5St{}, node, edge, exit); p != nil && bad == nil {
+				bad = p
+			}
+		}
+		if bad != nil {
+			c.Bad("C13-N5", fname+"/"+key, fd.Pos(), badMsg, c.P.DescribePath(bad)...)
+		} else {
+			c.Ok("C13-N5", fname+"/"+key, fd.Pos(), okMsg)
+		}
+	}
+	check("matched-on-miss", "matched is counted only for a row that is recorded as seen",
+		"a table row is counted as matched on a path that does not record it in the seen-rows cache: a row that joins with several rows of the other table is counted once per join row",
+		func(s n5St) bool { return s.m > 0 && !s.put })
+	check("matched-once", "one count per lookup", "a table row can be counted as matched twice for one cache lookup",
+		func(s n5St) bool { return s.m > 1 })
+	check("first-seen-counted", "every first-seen row is counted",
+		"a table row is recorded as seen but, with a handler present, not counted as matched",
+		func(s n5St) bool { return s.put && s.m == 0 && !s.noHandler })
+}
